@@ -632,6 +632,55 @@ def _run(ck, queue):
                                  'remaining work list')
             report(rec, no_input=True)
 
+    # ------------------------------------------------------------------ groups with a gap between their members
+    # two chips with a gap, an image H lying in the gap (true overlap 0 with the group) and an image K overlapping one
+    # chip, for every bounding-box policy (the approximate footprint of a group must not enter overlap AREAS): the pair
+    # with the largest true overlap is (G, K), the reported area is that overlap
+    from tweakwcs.wcsimage import WCSImageCatalog, WCSGroupCatalog
+    wide = Sky(ck.seed % 1000 + 11, 4000, 0.04)
+    for t in range(ck.n(8, 60)):
+        jit = [rng.uniform(-3e-4, 3e-4) for _ in range(4)]
+        chips = [mkcorr(wide, 0, None, -0.0115 + jit[0], 0.0, 0.0), mkcorr(wide, 1, None, 0.0115 + jit[1], 0.0, 0.0)]
+        h_ = mkcorr(wide, 2, None, jit[2], 0.0, 0.0)
+        k_ = mkcorr(wide, 3, None, -0.0115 - 0.006 + jit[3], 0.001, 0.0)
+        bbp = ['auto', 'exact', 0, 1, 2][t % 5]
+
+        def cat(c):
+            return WCSImageCatalog(c.meta['catalog'], c, name=c.meta['name'])
+        G_ = WCSGroupCatalog([cat(c) for c in chips], name='G', bb_policy=bbp)
+        H_ = WCSGroupCatalog([cat(h_)], name='H', bb_policy=bbp)
+        K_ = WCSGroupCatalog([cat(k_)], name='K', bb_policy=bbp)
+        # expectation from member polygons only (public API)
+        def true_area(a, b_):
+            tot = 0.0
+            for ia in a:
+                for ib_ in b_:
+                    tot += abs(ia.polygon.intersection(ib_.polygon).area())
+            return tot
+        aGH, aGK, aHK = true_area(G_, H_), true_area(G_, K_), true_area(H_, K_)
+        ck.search_evaluations += 1
+        ck.count('gap_group_bb_policy', bbp)
+        if not (aGH == 0.0 and aGK > 0.0 and aGK > aHK):
+            ck.discard('gap-group scenario: generated footprints do not have the intended overlaps')
+            continue
+        order = [[G_, H_, K_], [H_, G_, K_], [K_, H_, G_]][t % 3]
+        names_in = [o.name for o in order]
+        lst_ = list(order)
+        try:
+            im1, im2, area = tw.imalign._max_overlap_pair(lst_, False)
+        except Exception as e:   # noqa: BLE001
+            report({'kind': 'gap-group: _max_overlap_pair raised', 'bb_policy': bbp, 'exception': repr(e)})
+            continue
+        ck.case(('gap-group', t, bbp), True)
+        got = {im1.name, im2.name}
+        if got != {'G', 'K'} or not abs(area - aGK) <= 1e-4 * aGK or [o.name for o in lst_] != ['H']:
+            report({'kind': 'gap-group: pair with the largest true overlap not selected', 'bb_policy': repr(bbp),
+                    'input order': names_in, 'selected': [im1.name, im2.name], 'reported_area_sr': float(area),
+                    'true areas (member-wise polygon intersections, sr)': {'G-H': aGH, 'G-K': aGK, 'H-K': aHK},
+                    'remaining work list': [o.name for o in lst_],
+                    'geometry': 'G = two 1024 px chips 0.023 deg apart (gap 0.0128 deg), H a 1024 px image centred in the '
+                                'gap, K overlapping the first chip; pixel scale 1e-5 deg'})
+
     # ------------------------------------------------------------------ end to end
     logging.disable(logging.CRITICAL)
     sky = Sky(ck.seed % 1000 + 5, 90, 0.012)
